@@ -59,6 +59,11 @@ struct parquet_schema_element {
     /* Field 4: name */
     char* name;
 
+    /* Computed, not stored in the file: definition / repetition level accumulated
+     * from the root down to and including this node (for a leaf: its maximum levels) */
+    int16_t max_def_level;
+    int16_t max_rep_level;
+
     /* Field 5: num_children (for groups) */
     int32_t num_children;
 
